@@ -245,7 +245,7 @@ impl NtpDuration {
     /// Interval of same length, but positive direction
     pub const fn abs(self) -> Self {
         Self {
-            duration: self.duration.abs(),
+            duration: self.duration.saturating_abs(),
         }
     }
 
@@ -391,7 +391,7 @@ impl Neg for NtpDuration {
 
     fn neg(self) -> Self::Output {
         NtpDuration {
-            duration: -self.duration,
+            duration: self.duration.saturating_neg(),
         }
     }
 }
@@ -454,17 +454,17 @@ macro_rules! ntp_duration_scalar_div {
             type Output = NtpDuration;
 
             fn div(self, rhs: $scalar_type) -> NtpDuration {
-                // No overflow risks for division
+                // Only i64::MIN / -1 can overflow, saturate in that case
                 NtpDuration {
-                    duration: self.duration / (rhs as i64),
+                    duration: self.duration.saturating_div(rhs as i64),
                 }
             }
         }
 
         impl DivAssign<$scalar_type> for NtpDuration {
             fn div_assign(&mut self, rhs: $scalar_type) {
-                // No overflow risks for division
-                self.duration /= (rhs as i64);
+                // Only i64::MIN / -1 can overflow, saturate in that case
+                self.duration = self.duration.saturating_div(rhs as i64);
             }
         }
     };
